@@ -487,8 +487,22 @@ where
     w.push(Want::Draws("constraint composition coefficients", num_coefficients));
     w.push(Want::Reseed("constraint commitment", constraint_root.as_bytes().to_vec()));
     w.push(Want::Draws("out-of-domain point", 1));
-    w.push(Want::Reseed("OOD trace frame", ood_trace.hash::<H>().as_bytes().to_vec()));
-    w.push(Want::Reseed("OOD constraint evaluations", H::hash_elements(&ood_evals).as_bytes().to_vec()));
+    // the absorbed OOD messages are recomputed from the bytes carried in the proof (not through the library's
+    // own TraceOodFrame::hash): all trace-state elements, then all Lagrange-kernel elements; all evaluations
+    let ood = Blobs::parse(&proof.ood_frame.to_bytes(), 0, &[2, 2, 2], 0);
+    let elements_of = |bytes: &[u8]| -> Vec<E> {
+        use winterfell::ByteReader;
+        let mut r = winterfell::SliceReader::new(bytes);
+        r.read_many::<E>(bytes.len() / E::ELEMENT_BYTES).expect("OOD elements")
+    };
+    let mut trace_msg = elements_of(&ood.blobs[0].1[1..]);
+    trace_msg.extend(elements_of(&ood.blobs[1].1[1..]));
+    let evals_msg = elements_of(&ood.blobs[2].1);
+    if ood_trace.hash::<H>() != H::hash_elements(&trace_msg) || ood_evals != evals_msg {
+        fail(format!("the parsed OOD frame does not hash to the hash of the elements carried in the proof: shape={shape:?}"));
+    }
+    w.push(Want::Reseed("OOD trace frame", H::hash_elements(&trace_msg).as_bytes().to_vec()));
+    w.push(Want::Reseed("OOD constraint evaluations", H::hash_elements(&evals_msg).as_bytes().to_vec()));
     w.push(Want::Draws("DEEP coefficients", num_deep));
     for (k, c) in fri_roots.iter().enumerate() {
         if k + 1 < fri_roots.len() {
@@ -878,7 +892,7 @@ fn read_like<T: winterfell::Deserializable>(_like: &T, b: &[u8]) -> Result<T, wi
 fn grid() -> Vec<(Shape, usize, usize, ProofOptions)> {
     let mut v = Vec::new();
     for ext in [FieldExtension::None, FieldExtension::Quadratic, FieldExtension::Cubic] {
-        for (trace_len, folding, rmd) in [(8usize, 2usize, 1usize), (16, 4, 3), (64, 2, 0), (128, 8, 7), (32, 16, 31), (16, 16, 0)] {
+        for (trace_len, folding, rmd) in [(8usize, 2usize, 1usize), (16, 4, 3), (64, 2, 0), (128, 8, 7), (32, 16, 31), (16, 16, 0), (1024, 4, 7)] {
             for num_aux_rands in [1usize, 2, 3] {
                 for (queries, blowup, grinding) in [(4usize, 4usize, 0u32), (13, 8, 5)] {
                     v.push((Shape::Lagrange, trace_len, num_aux_rands, ProofOptions::new(queries, blowup, grinding, ext, folding, rmd)));
